@@ -70,7 +70,9 @@ def make_hist(rng, d, who=0):
         v = (gen.F(1), gen.F(0), gen.F(0))
     return {"who": who, "v": v, "use": rng.choice(("receiver", "receiver", "returned")), "touch": rng.random() < 0.75,
             "sib": rng.choice((None, None, "neg", "copy")), "neg": rng.choice((None, None, None, "before", "after")),
-            "w": tuple(gen.F(rng.randint(-4, 4), 2) for _ in range(3)), "alias": rng.random() < 0.25}
+            "w": tuple(gen.F(rng.randint(-4, 4), 2) for _ in range(3)), "alias": rng.random() < 0.25,
+            "split": rng.random() < 0.35, "nt": rng.choice(("float", "float", "float", "int", "Fraction")),
+            "assign": d[0] == "S" and rng.random() < 0.3}
 
 
 def _own_vectors(d):
@@ -144,7 +146,17 @@ def lift_via_history(d, h, r, partner=None):
     if not gen.ok_coords(d0, 64, 64):
         HIST_STATS["fallback"] += 1
         return lift(d, r)
-    o = lift(d0, r)
+    nt_name = h.get("nt", "float")
+    if nt_name == "int" and all(gen.F(c).denominator == 1 for c in gen.coords_of(d0)):
+        from ..desc import num as _num
+        HIST_STATS["built_with_int_coordinates"] += 1
+        o = lift(d0, r, int)
+    elif nt_name == "Fraction":
+        from fractions import Fraction as _Fr
+        HIST_STATS["built_with_Fraction_coordinates"] += 1
+        o = lift(d0, r, _Fr)
+    else:
+        o = lift(d0, r)
     k = d[0]
     negmode = h.get("neg")
     if negmode is True:
@@ -162,7 +174,25 @@ def lift_via_history(d, h, r, partner=None):
         sib = -o
     elif h.get("sib") == "copy":
         sib = _copy.deepcopy(o)
-    ret = o.move(G.Vector(*[float(c) for c in v]))
+    if h.get("assign") and k == "S":
+        # a Segment reaches its place by item assignment of both end points (public API), after having been used elsewhere
+        HIST_STATS["segments_placed_by_item_assignment"] += 1
+        o[0] = G.Point(*[float(c) for c in d[1]])
+        o[1] = G.Point(*[float(c) for c in d[2]])
+        h["use"] = "receiver"
+        return o
+    if h.get("split"):
+        # the object reaches its place in two moves (and is used in between): whatever it caches after the first move
+        # must not survive the second
+        v1 = tuple(gen.F(int(c * 2) // 2) for c in v) if any(int(c * 2) // 2 for c in v) else K.mul(v, gen.F(1, 2))
+        v2 = K.sub(v, v1)
+        HIST_STATS["moved_in_two_steps"] += 1
+        o.move(G.Vector(*[float(c) for c in v1]))
+        if h.get("touch"):
+            touch(o, translate(d0, v1), partner)
+        ret = o.move(G.Vector(*[float(c) for c in v2]))
+    else:
+        ret = o.move(G.Vector(*[float(c) for c in v]))
     derived = None
     if k == "P" and h.get("sib"):
         # objects built FROM the point (in its final place) go their own way afterwards: the point must not follow them
@@ -284,6 +314,9 @@ def hist_cell(case):
     if not h:
         return []
     out = ["pose:history/%s/%s" % ("used-then-moved" if h.get("touch") else "moved", h["use"])]
+    who = case.get("abc"[h.get("who", 0)]) if "abc"[h.get("who", 0)] in case else None
+    if h.get("assign") and who is not None and who[0] == "S":
+        out = ["pose:history/segment-placed-by-item-assignment"]
     if h.get("alias") and case.get("_alias_done"):
         out.append("pose:history/other-of-(receiver,returned)-moved-on/" + h["use"])
     return out
